@@ -51,11 +51,11 @@ const c25DayD = 24 * time.Hour
 
 func c25NextMidnight(t time.Time) time.Time { return t.UTC().Truncate(c25DayD).Add(c25DayD) }
 
-func p32(v int) *int32 { x := int32(v); return &x }
-func p64(v int64) *int64 { return &v }
-func pstr(s string) *string { return &s }
-func ptime(t time.Time) *time.Time { return &t }
-func pbool(b bool) *bool { return &b }
+func c25P32(v int) *int32 { x := int32(v); return &x }
+func c25P64(v int64) *int64 { return &v }
+func c25PStr(s string) *string { return &s }
+func c25PTime(t time.Time) *time.Time { return &t }
+func c25PBool(b bool) *bool { return &b }
 
 var (
 	c25KeyPool   = []string{"logs/a", "logs/b", "logs/a/x", "data/x", "tmp/1", "l", "logs"}
@@ -80,22 +80,22 @@ func c25GenTags(r *verifx.Rng) map[string]string {
 func c25GenSelector(r *verifx.Rng, ru *storage.LifecycleRule) {
 	switch r.Intn(9) {
 	case 0:
-		ru.Prefix = pstr(verifx.Pick(r, c25PfxPool))
+		ru.Prefix = c25PStr(verifx.Pick(r, c25PfxPool))
 	case 1:
 		ru.Filter = &storage.LifecycleFilter{}
 	case 2, 3:
-		ru.Filter = &storage.LifecycleFilter{Prefix: pstr(verifx.Pick(r, c25PfxPool))}
+		ru.Filter = &storage.LifecycleFilter{Prefix: c25PStr(verifx.Pick(r, c25PfxPool))}
 	case 4:
 		t := verifx.Pick(r, c25TagPool[:3])
 		ru.Filter = &storage.LifecycleFilter{Tag: &storage.LifecycleTag{Key: t[0], Value: t[1]}}
 	case 5:
-		ru.Filter = &storage.LifecycleFilter{ObjectSizeGreaterThan: p64(verifx.Pick(r, c25SizePool))}
+		ru.Filter = &storage.LifecycleFilter{ObjectSizeGreaterThan: c25P64(verifx.Pick(r, c25SizePool))}
 	case 6:
-		ru.Filter = &storage.LifecycleFilter{ObjectSizeLessThan: p64(verifx.Pick(r, c25SizePool) + 1)}
+		ru.Filter = &storage.LifecycleFilter{ObjectSizeLessThan: c25P64(verifx.Pick(r, c25SizePool) + 1)}
 	default:
 		a := &storage.LifecycleFilterAnd{}
 		if r.Bool() {
-			a.Prefix = pstr(verifx.Pick(r, c25PfxPool))
+			a.Prefix = c25PStr(verifx.Pick(r, c25PfxPool))
 		}
 		for _, t := range [][2]string{c25TagPool[r.Intn(2)], c25TagPool[2]} {
 			if r.Chance(2, 5) {
@@ -103,10 +103,10 @@ func c25GenSelector(r *verifx.Rng, ru *storage.LifecycleRule) {
 			}
 		}
 		if r.Chance(1, 3) {
-			a.ObjectSizeGreaterThan = p64(verifx.Pick(r, c25SizePool[:4]))
+			a.ObjectSizeGreaterThan = c25P64(verifx.Pick(r, c25SizePool[:4]))
 		}
 		if r.Chance(1, 3) {
-			a.ObjectSizeLessThan = p64(verifx.Pick(r, c25SizePool[3:]) + 1)
+			a.ObjectSizeLessThan = c25P64(verifx.Pick(r, c25SizePool[3:]) + 1)
 		}
 		ru.Filter = &storage.LifecycleFilter{And: a}
 	}
@@ -140,14 +140,14 @@ func c25GenRule(r *verifx.Rng) storage.LifecycleRule {
 			}
 			switch r.Intn(5) {
 			case 0:
-				ru.Expiration = &storage.LifecycleExpiration{Date: ptime(c25Day0.AddDate(0, 0, r.Intn(9)-4))}
+				ru.Expiration = &storage.LifecycleExpiration{Date: c25PTime(c25Day0.AddDate(0, 0, r.Intn(9)-4))}
 			case 1:
 				if !hasTag {
-					ru.Expiration = &storage.LifecycleExpiration{ExpiredObjectDeleteMarker: pbool(r.Chance(9, 10))}
+					ru.Expiration = &storage.LifecycleExpiration{ExpiredObjectDeleteMarker: c25PBool(r.Chance(9, 10))}
 				}
 			default:
 				expDays = 1 + r.Intn(8)
-				ru.Expiration = &storage.LifecycleExpiration{Days: p32(expDays)}
+				ru.Expiration = &storage.LifecycleExpiration{Days: c25P32(expDays)}
 			}
 		case 2:
 			if len(ru.Transitions) > 0 {
@@ -158,9 +158,9 @@ func c25GenRule(r *verifx.Rng) storage.LifecycleRule {
 			for i := 0; i < n; i++ {
 				t := storage.LifecycleTransition{StorageClass: c25ClassPool[(off+i)%len(c25ClassPool)]}
 				if r.Chance(1, 5) {
-					t.Date = ptime(c25Day0.AddDate(0, 0, r.Intn(9)-4))
+					t.Date = c25PTime(c25Day0.AddDate(0, 0, r.Intn(9)-4))
 				} else {
-					t.Days = p32(r.Intn(6))
+					t.Days = c25P32(r.Intn(6))
 				}
 				ru.Transitions = append(ru.Transitions, t)
 			}
@@ -168,9 +168,9 @@ func c25GenRule(r *verifx.Rng) storage.LifecycleRule {
 			if ru.NoncurrentVersionExpiration != nil {
 				continue
 			}
-			ne := &storage.LifecycleNoncurrentVersionExpiration{NoncurrentDays: p32(1 + r.Intn(6))}
+			ne := &storage.LifecycleNoncurrentVersionExpiration{NoncurrentDays: c25P32(1 + r.Intn(6))}
 			if ru.Filter != nil && r.Bool() {
-				ne.NewerNoncurrentVersions = p32(1 + r.Intn(3))
+				ne.NewerNoncurrentVersions = c25P32(1 + r.Intn(3))
 			}
 			ru.NoncurrentVersionExpiration = ne
 		case 5:
@@ -180,33 +180,33 @@ func c25GenRule(r *verifx.Rng) storage.LifecycleRule {
 			n := 1 + r.Intn(2)
 			off := r.Intn(len(c25ClassPool))
 			for i := 0; i < n; i++ {
-				t := storage.LifecycleNoncurrentVersionTransition{StorageClass: c25ClassPool[(off+i)%len(c25ClassPool)], NoncurrentDays: p32(1 + r.Intn(4))}
+				t := storage.LifecycleNoncurrentVersionTransition{StorageClass: c25ClassPool[(off+i)%len(c25ClassPool)], NoncurrentDays: c25P32(1 + r.Intn(4))}
 				if ru.Filter != nil && r.Chance(1, 3) {
-					t.NewerNoncurrentVersions = p32(1 + r.Intn(2))
+					t.NewerNoncurrentVersions = c25P32(1 + r.Intn(2))
 				}
 				ru.NoncurrentVersionTransitions = append(ru.NoncurrentVersionTransitions, t)
 			}
 		case 6:
 			if !hasTag && !hasSize {
-				ru.AbortIncompleteMultipartUpload = &storage.LifecycleAbortIncompleteMultipartUpload{DaysAfterInitiation: p32(1 + r.Intn(5))}
+				ru.AbortIncompleteMultipartUpload = &storage.LifecycleAbortIncompleteMultipartUpload{DaysAfterInitiation: c25P32(1 + r.Intn(5))}
 			}
 		}
 	}
 	if ru.Expiration == nil && ru.AbortIncompleteMultipartUpload == nil && len(ru.Transitions) == 0 && ru.NoncurrentVersionExpiration == nil && len(ru.NoncurrentVersionTransitions) == 0 {
-		ru.Expiration = &storage.LifecycleExpiration{Days: p32(1 + r.Intn(5))}
+		ru.Expiration = &storage.LifecycleExpiration{Days: c25P32(1 + r.Intn(5))}
 	}
 	// keep most rules acceptable to the validator: transition days below expiration days
 	if ru.Expiration != nil && ru.Expiration.Days != nil {
 		for i := range ru.Transitions {
 			if d := ru.Transitions[i].Days; d != nil && *d >= *ru.Expiration.Days && r.Chance(9, 10) {
-				ru.Expiration.Days = p32(int(*d) + 1 + r.Intn(3))
+				ru.Expiration.Days = c25P32(int(*d) + 1 + r.Intn(3))
 			}
 		}
 	}
 	if ne := ru.NoncurrentVersionExpiration; ne != nil {
 		for i := range ru.NoncurrentVersionTransitions {
 			if d := ru.NoncurrentVersionTransitions[i].NoncurrentDays; d != nil && *d >= *ne.NoncurrentDays && r.Chance(9, 10) {
-				ne.NoncurrentDays = p32(int(*d) + 1 + r.Intn(3))
+				ne.NoncurrentDays = c25P32(int(*d) + 1 + r.Intn(3))
 			}
 		}
 	}
@@ -214,26 +214,26 @@ func c25GenRule(r *verifx.Rng) storage.LifecycleRule {
 	if r.Chance(1, 14) {
 		switch r.Intn(5) {
 		case 0:
-			ru.Prefix = pstr("logs/")
+			ru.Prefix = c25PStr("logs/")
 			if ru.Filter == nil {
-				ru.Filter = &storage.LifecycleFilter{Prefix: pstr("data/")}
+				ru.Filter = &storage.LifecycleFilter{Prefix: c25PStr("data/")}
 			}
 		case 1:
 			if ru.Filter == nil {
 				ru.Filter = &storage.LifecycleFilter{}
 				ru.Prefix = nil
 			}
-			ru.Filter.Prefix = pstr("l")
-			ru.Filter.ObjectSizeGreaterThan = p64(100)
+			ru.Filter.Prefix = c25PStr("l")
+			ru.Filter.ObjectSizeGreaterThan = c25P64(100)
 			if ru.Filter.And != nil {
-				ru.Filter.And.ObjectSizeGreaterThan = p64(1)
+				ru.Filter.And.ObjectSizeGreaterThan = c25P64(1)
 			}
 		case 2:
-			ru.Expiration = &storage.LifecycleExpiration{Days: p32(0)}
+			ru.Expiration = &storage.LifecycleExpiration{Days: c25P32(0)}
 		case 3:
 			ru.Status = "enabled"
 		case 4:
-			ru.Expiration = &storage.LifecycleExpiration{Days: p32(2), Date: ptime(c25Day0.Add(time.Hour))}
+			ru.Expiration = &storage.LifecycleExpiration{Days: c25P32(2), Date: c25PTime(c25Day0.Add(time.Hour))}
 		}
 	}
 	return ru
@@ -281,7 +281,7 @@ func c25GenHistory(r *verifx.Rng, f *c25Fake) {
 			default:
 				v.vid = f.newVid()
 			}
-			if f.mode != "unversioned" && n > 1 && r.Chance(1, 5) {
+			if f.mode != "unversioned" && n > 1 && v.vid != "null" && r.Chance(1, 5) { // (the SQL store never writes a null delete marker)
 				v.dm, v.size, v.etag, v.tags = true, 0, "", map[string]string{}
 			}
 			if !v.dm && r.Chance(1, 3) {
@@ -476,12 +476,12 @@ func c25Directed(mode, regime string, now time.Time, rules []storage.LifecycleRu
 
 func c25DirectedCases() []*c25Fake {
 	d := func(days int, tod time.Duration) time.Time { return c25Day0.AddDate(0, 0, days).Add(tod) }
-	pfx := func(p string) *storage.LifecycleFilter { return &storage.LifecycleFilter{Prefix: pstr(p)} }
+	pfx := func(p string) *storage.LifecycleFilter { return &storage.LifecycleFilter{Prefix: c25PStr(p)} }
 	en := storage.LifecycleRuleStatusEnabled
 	var cs []*c25Fake
 	// 0-3: Days=3 on an object created 10:30 — due at the midnight following creation + 3 days; clock at due-1ns, due, and
 	// one day early at the same time of day (the `nextMidnight` without `+1 day` mutant)
-	exp3 := []storage.LifecycleRule{{Status: en, Filter: pfx("logs/"), Expiration: &storage.LifecycleExpiration{Days: p32(3)}}}
+	exp3 := []storage.LifecycleRule{{Status: en, Filter: pfx("logs/"), Expiration: &storage.LifecycleExpiration{Days: c25P32(3)}}}
 	one := func() map[string][]c25V {
 		return map[string][]c25V{"logs/a": {{vid: "null", created: d(-10, 10*time.Hour+30*time.Minute), size: 10, etag: "aa"}}, "data/x": {{vid: "null", created: d(-30, 0), size: 10, etag: "bb"}}}
 	}
@@ -491,14 +491,14 @@ func c25DirectedCases() []*c25Fake {
 	// created exactly at midnight: due is the NEXT midnight
 	cs = append(cs, c25Directed("unversioned", "s3", d(-6, 0), exp3, map[string][]c25V{"logs/a": {{vid: "null", created: d(-10, 0), size: 10, etag: "aa"}}}, nil))
 	// 4: expiration and transition both due: delete, no transition
-	both := []storage.LifecycleRule{{Status: en, Filter: pfx(""), Expiration: &storage.LifecycleExpiration{Days: p32(5)},
-		Transitions: []storage.LifecycleTransition{{Days: p32(1), StorageClass: "GLACIER"}}}}
+	both := []storage.LifecycleRule{{Status: en, Filter: pfx(""), Expiration: &storage.LifecycleExpiration{Days: c25P32(5)},
+		Transitions: []storage.LifecycleTransition{{Days: c25P32(1), StorageClass: "GLACIER"}}}}
 	cs = append(cs, c25Directed("enabled", "s3", d(0, time.Hour), both, map[string][]c25V{"logs/a": {{vid: "v00001", created: d(-20, 0), size: 10, etag: "aa"}},
 		"logs/b": {{vid: "v00002", created: d(-3, 0), size: 10, etag: "bb"}}}, nil))
 	// 5: NewerNoncurrentVersions=2 over five noncurrent versions, LastModified = creation
-	nc := []storage.LifecycleRule{{Status: en, Filter: pfx("logs/"), NoncurrentVersionExpiration: &storage.LifecycleNoncurrentVersionExpiration{NoncurrentDays: p32(1), NewerNoncurrentVersions: p32(2)},
-		NoncurrentVersionTransitions: []storage.LifecycleNoncurrentVersionTransition{{NoncurrentDays: p32(0 + 1), StorageClass: "STANDARD_IA"}}}}
-	nc[0].NoncurrentVersionExpiration.NoncurrentDays = p32(2)
+	nc := []storage.LifecycleRule{{Status: en, Filter: pfx("logs/"), NoncurrentVersionExpiration: &storage.LifecycleNoncurrentVersionExpiration{NoncurrentDays: c25P32(1), NewerNoncurrentVersions: c25P32(2)},
+		NoncurrentVersionTransitions: []storage.LifecycleNoncurrentVersionTransition{{NoncurrentDays: c25P32(0 + 1), StorageClass: "STANDARD_IA"}}}}
+	nc[0].NoncurrentVersionExpiration.NoncurrentDays = c25P32(2)
 	chain6 := func() []c25V {
 		var vs []c25V
 		for i := 6; i >= 1; i-- {
@@ -518,15 +518,15 @@ func c25DirectedCases() []*c25Fake {
 	for i := 3; i < 6; i++ {
 		bumped[i].lm = d(-30, time.Duration(10-i)*time.Minute)
 	}
-	ncOnly := []storage.LifecycleRule{{Status: en, Filter: pfx("logs/"), NoncurrentVersionExpiration: &storage.LifecycleNoncurrentVersionExpiration{NoncurrentDays: p32(2), NewerNoncurrentVersions: p32(1)}}}
+	ncOnly := []storage.LifecycleRule{{Status: en, Filter: pfx("logs/"), NoncurrentVersionExpiration: &storage.LifecycleNoncurrentVersionExpiration{NoncurrentDays: c25P32(2), NewerNoncurrentVersions: c25P32(1)}}}
 	cs = append(cs, c25Directed("enabled", "pithos", d(0, 0), ncOnly, map[string][]c25V{"logs/a": bumped}, nil))
 	// 7: S3 would expire the second-newest noncurrent version (NewerNoncurrentVersions=1); it is kept and transitioned
 	cs = append(cs, c25Directed("enabled", "s3", d(0, 0), []storage.LifecycleRule{{Status: en, Filter: pfx(""),
-		NoncurrentVersionExpiration:  &storage.LifecycleNoncurrentVersionExpiration{NoncurrentDays: p32(3), NewerNoncurrentVersions: p32(1)},
-		NoncurrentVersionTransitions: []storage.LifecycleNoncurrentVersionTransition{{NoncurrentDays: p32(1), StorageClass: "GLACIER"}}}},
+		NoncurrentVersionExpiration:  &storage.LifecycleNoncurrentVersionExpiration{NoncurrentDays: c25P32(3), NewerNoncurrentVersions: c25P32(1)},
+		NoncurrentVersionTransitions: []storage.LifecycleNoncurrentVersionTransition{{NoncurrentDays: c25P32(1), StorageClass: "GLACIER"}}}},
 		map[string][]c25V{"logs/a": chain6()[3:]}, nil))
 	// 8: two stacked delete markers, no object version
-	dmRule := []storage.LifecycleRule{{Status: en, Filter: pfx(""), Expiration: &storage.LifecycleExpiration{ExpiredObjectDeleteMarker: pbool(true)}}}
+	dmRule := []storage.LifecycleRule{{Status: en, Filter: pfx(""), Expiration: &storage.LifecycleExpiration{ExpiredObjectDeleteMarker: c25PBool(true)}}}
 	cs = append(cs, c25Directed("enabled", "s3", d(0, 0), dmRule, map[string][]c25V{
 		"logs/a": {{vid: "v00002", dm: true, created: d(-2, 0)}, {vid: "v00001", dm: true, created: d(-3, 0)}},
 		"logs/b": {{vid: "v00004", dm: true, created: d(-2, 0)}},
@@ -538,12 +538,12 @@ func c25DirectedCases() []*c25Fake {
 	sw = c25Directed("enabled", "pithos", d(0, 0), both, map[string][]c25V{"logs/a": {{vid: "v00001", created: d(-20, 0), size: 10, etag: "aa"}}}, nil)
 	sw.swapKey, sw.swapKind = "logs/a", "current"
 	cs = append(cs, sw)
-	sw = c25Directed("enabled", "s3", d(0, 0), []storage.LifecycleRule{{Status: en, Filter: pfx(""), Transitions: []storage.LifecycleTransition{{Days: p32(1), StorageClass: "GLACIER"}}}},
+	sw = c25Directed("enabled", "s3", d(0, 0), []storage.LifecycleRule{{Status: en, Filter: pfx(""), Transitions: []storage.LifecycleTransition{{Days: c25P32(1), StorageClass: "GLACIER"}}}},
 		map[string][]c25V{"logs/a": {{vid: "v00001", created: d(-20, 0), size: 10, etag: "aa"}}}, nil)
 	sw.swapKey, sw.swapKind = "logs/a", "current"
 	cs = append(cs, sw)
 	// 12: a noncurrent NULL version is replaced (versioning suspended + write) between listing and delete
-	sw = c25Directed("enabled", "s3", d(0, 0), []storage.LifecycleRule{{Status: en, Filter: pfx(""), NoncurrentVersionExpiration: &storage.LifecycleNoncurrentVersionExpiration{NoncurrentDays: p32(1)}}},
+	sw = c25Directed("enabled", "s3", d(0, 0), []storage.LifecycleRule{{Status: en, Filter: pfx(""), NoncurrentVersionExpiration: &storage.LifecycleNoncurrentVersionExpiration{NoncurrentDays: c25P32(1)}}},
 		map[string][]c25V{"logs/a": {{vid: "v00001", created: d(-20, 0), size: 10, etag: "aa"}, {vid: "null", created: d(-25, 0), size: 10, etag: "00"}}}, nil)
 	sw.swapKey, sw.swapKind = "logs/a", "nullnoncurrent"
 	cs = append(cs, sw)
@@ -552,9 +552,30 @@ func c25DirectedCases() []*c25Fake {
 	sw.swapKey, sw.swapKind = "logs/a", "current"
 	cs = append(cs, sw)
 	// 14: uploads around the abort due instant
-	ab := []storage.LifecycleRule{{Status: en, Filter: pfx("logs/"), AbortIncompleteMultipartUpload: &storage.LifecycleAbortIncompleteMultipartUpload{DaysAfterInitiation: p32(2)}}}
+	ab := []storage.LifecycleRule{{Status: en, Filter: pfx("logs/"), AbortIncompleteMultipartUpload: &storage.LifecycleAbortIncompleteMultipartUpload{DaysAfterInitiation: c25P32(2)}}}
 	cs = append(cs, c25Directed("unversioned", "s3", d(0, 0), ab, map[string][]c25V{}, []*c25Upl{
 		{key: "logs/a", id: "u1", initiated: d(-3, 0).Add(-1)}, {key: "logs/a", id: "u2", initiated: d(-3, 0)}, {key: "data/x", id: "u3", initiated: d(-30, 0)}}))
+	// 15: the re-tagged history of case 6 with a NoncurrentVersionTransition as well
+	rebump := func() []c25V {
+		vs := chain6()
+		for i := range vs {
+			if i > 0 {
+				vs[i].lm = vs[i-1].created
+			}
+		}
+		for i := 3; i < 6; i++ {
+			vs[i].lm = d(-30, time.Duration(10-i)*time.Minute)
+		}
+		return vs
+	}
+	cs = append(cs, c25Directed("enabled", "pithos", d(0, 0), []storage.LifecycleRule{{Status: en, Filter: pfx("logs/"),
+		NoncurrentVersionExpiration:  &storage.LifecycleNoncurrentVersionExpiration{NoncurrentDays: c25P32(2), NewerNoncurrentVersions: c25P32(1)},
+		NoncurrentVersionTransitions: []storage.LifecycleNoncurrentVersionTransition{{NoncurrentDays: c25P32(1), StorageClass: "GLACIER"}}}},
+		map[string][]c25V{"logs/a": rebump()}, nil))
+	// 16: … and with a NoncurrentVersionTransition that has its own NewerNoncurrentVersions
+	cs = append(cs, c25Directed("enabled", "pithos", d(0, 0), []storage.LifecycleRule{{Status: en, Filter: pfx("logs/"),
+		NoncurrentVersionTransitions: []storage.LifecycleNoncurrentVersionTransition{{NoncurrentDays: c25P32(1), NewerNoncurrentVersions: c25P32(1), StorageClass: "GLACIER"}}}},
+		map[string][]c25V{"logs/a": rebump()}, nil))
 	return cs
 }
 
